@@ -44,6 +44,9 @@ def shards(tier, seed):
     for fe in SOLVER_FRONTENDS:
         for i in range(1 if tier == "quick" else 3):
             out.append({"kind": "solver", "frontend": fe, "i": i, "n": N_HIST[tier], "hseed": seed * 1000 + 1850 + len(out)})
+        for i in range(1 if tier == "quick" else 2):
+            # directed: pickle taken while adds are unchecked / a branch family shares children / caches are full
+            out.append({"kind": "solver", "scenario": True, "frontend": fe, "i": i, "n": N_HIST[tier] * 2 // 3, "hseed": seed * 1000 + 1850 + len(out)})
     return out
 
 
@@ -186,7 +189,7 @@ def run_shard(shard, ctx):
         def nontrivial(res):
             return bool(res.stats.get("pickles")) and res.stats.get("queries", 0) >= 1 and res.stats.get("adds", 0) >= 1
 
-        sp.run_random(shard, ctx, GROUPS, nontrivial)
+        sp.run_random(shard, ctx, GROUPS, nontrivial, strategy=sm.scenario_pickle() if shard.get("scenario") else None)
         return
     spell = st.integers(0, 2**16)
     cfg = gen.cfg_for(tier)
